@@ -260,17 +260,63 @@ def build(tier):
 
     vcs += lemmas()
     import tspec
+    import cspec
     tv, tf = tspec.build()
     vcs += tv
     fns += tf
     return {
-        'targets': [], 'vcs': vcs, 'functions': fns,
-        'decided': ['index/index0/size/dims0 and every recursion level of get_index/get_index0/product/get_dims0 for ranks 1..5 equal the row-major spec functions; no intermediate overflows given suffix products <= 2^62',
-                    'spec-function lemmas: row-major offset is injective on the index box, onto [0,size), lexicographically monotone'],
-        'not_decided': ['storage conversions (C++ object semantics)', 'summed-area table values (float sums)', 'Eigen Map construction'],
+        'targets': cspec.build(), 'vcs': vcs, 'functions': fns,
+        'decided': [
+            'index/index0/size/dims0 and every recursion level of get_index/get_index0/product/get_dims0 for ranks 1..5 equal the row-major spec functions; no intermediate overflows given suffix products <= 2^62',
+            'spec-function lemmas: row-major offset is injective on the index box, onto [0,size), lexicographically monotone',
+            'dims.h, additional contracts: size/product for extents of either sign (suffix products in [-2^62, 2^62]; reshape passes a -1 to size()); index0(dims, i) / get_index0<0>(dims, i) '
+            'END-INCLUSIVE (0 <= i <= dims[0]: offset i * P_1 in [0, size], no overflow)',
+            'base.h (ranks 1..4): dims, size, rows, cols, offset, offset0 (every prefix length; prefix length 1 also end-inclusive), dims0, _resize equal the dims.h spec functions; '
+            'storage.h: tensor_vector_storage_t::resize(dims) pins m_dims == dims and resizes the data to size(dims)',
+            'tensor.h (ranks 1..4, SMT): operator()(index) and operator()(indices...) (const and non-const) address element data()[F_0(indices)] inside the buffer; '
+            'tvector / ttensor / tmatrix and the public vector / tensor / matrix for every prefix length: pointer == data() + offset0(prefix) == data() + F_0(prefix), '
+            'length == size(dims0(prefix)) == P_m (matrix: rows() x cols() == dims[R-2] x dims[R-1]), sub-tensor dims == dims[m:], the view lies inside [0, size) of the SAME buffer; '
+            'tslice / slice(begin,end) / slice(range): 0 <= b <= e <= dims[0] => pointer == data() + b * P_1, dims == (e - b, dims[1..]), offset0(b) + (e - b) * P_1 <= size; '
+            'treshape / reshape (source rank x target rank in (2,1) (2,2) (2,3) (2,4) (1,2) (3,1) (4,2); one run per position of the -1 and one without): same data pointer, every '
+            'resulting extent >= 0, the -1 becomes size() / (product of the others), the extents multiply to size() (the assert in the code, proved); the division is by non-zero and nothing overflows',
+            'tensor.h indexed (ranks 1..4): indexed(indices, map): loop invariant "rows 0..i-1 written, one copy each"; per iteration the index list is read at i (in range), row indices(i) of '
+            'this tensor (offset indices(i) * P_1, in range by the asserted precondition on the index values) is copied to row i of the output (offset i * P_1), whole rows of equal length, '
+            'from this tensor\'s buffer to the output\'s; indexed(indices, mem&): the output has EXACTLY the dims (indices.size(), dims[1..]) -- every extent pinned, not the element count -- '
+            'and the callee precondition subtensor.dims() == (indices.size(), dims[1..]) holds at the inner call; indexed(indices): the returned tensor has exactly those dims',
+            'integral.h: integral_t<1>::get for int8 -> int64 and int32 -> int64 (CBMC, real arrays of symbolic length <= 10^6, --conversion-check / --signed-overflow-check ON): '
+            'out(0) == in(0), out(g) == out(g-1) + in(g) at a ghost index, every access in bounds, no overflow and no narrowing of the running sum; ranks 2 and 3 (SMT): the index pattern of '
+            'the recursion (slice i0 of the input integrated into slice i0 of the output, then output row i0-1 added to output row i0, whole rows, i0 >= 1 only, in that order); integral(): '
+            'an empty tensor is left alone, a non-empty one is integrated exactly once',
+            'algorithm.h remove_if(op, rank-1 tensor) (CBMC, the real loops under loop contracts, real array of symbolic length): every index of [0, size) is examined, in order, nothing outside; '
+            'returns the number of kept elements; the ORIGINAL value of every kept element g ends at position #(kept before g) < ret (compaction in order); detail::size, detail::copy (rank 1)',
+            'range.h: tensor_range_t(begin, end), make_range, begin, end, size (== end - begin, no overflow for ends in (-2^62, 2^62)), valid(n) <=> 0 <= begin < end <= n',
+            'pointer level (CBMC, ranks 1..3): in tvector / ttensor / tmatrix / tslice the real expression ptr + offset0(..) stays inside the array object of size() doubles and the mapped range '
+            '[pointer, pointer + extent) is addressable memory of that object; operator()(index) returns data() + index inside the object. The offsets\' contracts are ASSUMED there exactly as '
+            'proved on the SMT side: the C requires-clause is generated from the same python clause functions (tmodel.ens_view / ens_slice) with the C names substituted',
+            'GENUINE DEFECT kept as failing obligations (tensor_t<R>::tslice/callee offset0 ASSERTED precondition ...): tslice admits begin == end == dims[0] (its own assert: begin <= end <= '
+            'size<0>()) but then calls offset0(begin), whose assert (get_index0: index < dims[0]) rejects it; t.slice(n, n) and empty.slice(0, 0) abort in debug builds. The arithmetic itself is '
+            'right (all other tslice obligations are proved for the whole range through the end-inclusive contract of offset0)'],
+        'not_decided': ['storage conversions / copy semantics between owning and mapping storages (C++ object semantics)', 'summed-area table VALUES for ranks >= 2 and for floating-point outputs',
+                        'Eigen Map construction itself (map_vector / map_matrix / map_tensor are constructors: their result is modelled as (pointer, extent))',
+                        'remove_if on several tensors at once / on rank >= 2 tensors (detail::copy then assigns tensor_map_t temporaries: object semantics); the loops are the same template text',
+                        'make_dims / cat_dims (aggregate initialisation of std::array)', 'tensor.h numeric helpers (zero, full, random, min, max, ... : Eigen expressions over vector())'],
         'assumptions': ['tensor invariant: every extent >= 0 and every suffix product of the extents <= 2^62 (precondition, reported)',
-                        'template arguments of calls inside templates are read from the source text and evaluated under the instantiation bindings'],
-        'trusted': ['std::get<I>(std::array) returns element I', 'std::array::fill'],
+                        'template arguments of calls inside templates are read from the source text and evaluated under the instantiation bindings',
+                        'storage invariant: data() addresses size() elements (owning storage: established by the constructors / resize through Eigen; mapping storages: the caller\'s promise)',
+                        'private helpers tvector / ttensor / tmatrix / tslice / treshape receive ptr == data() (true of their only callers, the public wrappers, which are proved to pass data())',
+                        'the asserts compiled out under NDEBUG are the preconditions: index tuples inside the index box, slice range 0 <= begin <= end <= dims[0], indexed: every index value in '
+                        '[0, dims[0]) and (map overload) subtensor.dims() == (indices.size(), dims[1..]), integral: equal dims',
+                        'reshape(sizes...) precondition: every size >= 0 except at most one -1; the requested shape (-1 read as 1) has suffix products <= 2^62; without a -1 the sizes multiply to '
+                        'size(); with a -1 the product of the others is NON-ZERO (otherwise the code divides by zero: reported precondition) and divides size() (otherwise the code\'s assert fails)',
+                        'indexed(indices, mem&) / indexed(indices): the gathered shape is itself a valid tensor shape: indices.size() * P_1 <= 2^62',
+                        'Eigen (ASSUMED contracts): Map = expr and Map += Map copy / add coefficient k to coefficient k and require equal lengths (Eigen asserts it; a Map cannot be resized), '
+                        'cast<T>() keeps the coefficients, vector.resize(n) allocates n coefficients',
+                        'make_dims(sizes...) is the array of its arguments; std::array copy assignment is element-wise',
+                        'remove_if: op is a pure function of the index (libnano\'s callers read tensors that remove_if is compacting, but only at positions >= curr, which are still original); '
+                        'all tensors passed together have the same size<0>() (true of the three call sites: slices [0, m_size) of equally long buffers)',
+                        'integral_t<1>::get: tensors of at most 10^6 elements (bound on the symbolic array length; keeps |running sum| <= 2^31 * 10^6 < 2^63)',
+                        'CBMC pointer shell: the ghost results of offset0 / size(dims0) / the slice extent satisfy the SMT-proved clauses (generated from the same clause functions) and lie in [0, size]'],
+        'trusted': ['std::get<I>(std::array) returns element I', 'std::array::fill', 'std::array::operator[] with a constant index', 'range-based for over std::array<T, N> runs exactly N iterations in index order'],
     }
 
 
@@ -297,6 +343,8 @@ def replay(rp):
     """replay the solver's counterexample (dims, indices) on the real header"""
     import replaylib
     out = {'reproduced': False, 'runs': []}
+    if 'tensor_t<' in rp.get('target', ''):
+        return replay_tensor(rp, out)
     exe = replaylib.build_header_only('replay/C16_replay.cpp', 'C16_replay')
     for fo in rp['failed_obligations']:
         model = replaylib.parse_model((fo.get('counterexample') or {}).get('model', ''))
@@ -317,5 +365,36 @@ def replay(rp):
         rc, so, se = replaylib.run_driver(exe, [R] + [d for _, d in dims] + idx)
         out['runs'].append({'obligation': fo['id'], 'dims': [d for _, d in dims], 'index': idx, 'exit': rc, 'output': so.strip()})
         if rc == 1:
+            out['reproduced'] = True
+    return out
+
+
+def replay_tensor(rp, out):
+    """tensor.h obligations: the solver's (dims, begin, end) on the real tensor_t::slice, in a build WITH assertions; shapes too
+    large to allocate are replaced by a small shape with the same relation between begin, end and dims[0]"""
+    import replaylib
+    import subprocess
+    if 'slice' not in rp.get('target', ''):
+        return out
+    exe = replaylib.build_header_only('replay/C16_tensor_replay.cpp', 'C16_tensor_replay', extra=['-UNDEBUG', '-O0'])
+    R = int(re.search(r'tensor_t<(\d)>', rp['target']).group(1))
+    for fo in rp['failed_obligations']:
+        model = replaylib.parse_model((fo.get('counterexample') or {}).get('model', ''))
+        dims = [model.get(f'self_m_dims_{k}') for k in range(R)]
+        b, e = model.get('begin'), model.get('end')
+        if None in dims or b is None or e is None:
+            continue
+        size = 1
+        for d in dims:
+            size *= d
+        if size > 10 ** 6 or dims[0] > 10 ** 6:
+            small = [3] + [min(d, 2) for d in dims[1:]]
+            b, e = (small[0] if b == dims[0] else min(b, small[0])), (small[0] if e == dims[0] else min(e, small[0]))
+            dims = small
+        r = subprocess.run([exe, 'slice', str(R)] + [str(d) for d in dims] + [str(b), str(e)], capture_output=True, text=True, timeout=60)
+        aborted = r.returncode < 0 and 'Assertion' in r.stderr
+        out['runs'].append({'obligation': fo['id'], 'dims': dims, 'begin': b, 'end': e, 'exit': r.returncode, 'output': r.stdout.strip(),
+                            'assertion': r.stderr.strip()[-300:] if aborted else None})
+        if aborted or r.returncode == 1:
             out['reproduced'] = True
     return out
